@@ -554,7 +554,7 @@ def _discharge_grouped(keep, tier, nthreads):
     """an obligation NAME is discharged only if every path instance is; so: one z3 pass over all instances, then the slower
     back ends on the instances still open -- but as soon as one instance of a name stays open, the other open instances of
     that name are not pursued (their verdict cannot change the name's)"""
-    first = solve.discharge(keep, 'screen' if tier == 'quick' else tier, cross=(tier == 'thorough'), procs=nthreads, threads=True)
+    first = solve.discharge(keep, 'z3first' if tier == 'quick' else tier, cross=(tier == 'thorough'), procs=nthreads, threads=True)
     if tier != 'quick':
         return first
     res = list(first)
@@ -567,7 +567,7 @@ def _discharge_grouped(keep, tier, nthreads):
     pending = {n: list(ix) for n, ix in by_name.items()}
     while pending:
         batch = [(n, ix.pop(0)) for n, ix in pending.items()]
-        out = solve.discharge([keep[i] for _, i in batch], 'quick', procs=max(2, nthreads), threads=True)
+        out = solve.discharge([keep[i] for _, i in batch], 'cvc5only', procs=max(2, nthreads), threads=True)
         for (n, i), r in zip(batch, out):
             r['tried'] = res[i]['tried'] + r['tried']
             r['seconds'] += res[i]['seconds']
